@@ -112,7 +112,9 @@ class StatsMiddleware(Middleware):
         try:
             resp = next()
             resp_status = repr(getattr(resp, 'status_code', resp.__class__.__name__))
-            resp_mime_type = resp.content_type.partition(';')[0]
+            # HTTPExceptions are BaseResponses without a content_type attribute
+            resp_headers = getattr(resp, 'headers', None) or {}
+            resp_mime_type = resp_headers.get('Content-Type', '').partition(';')[0]
         except Exception as e:
             # see Werkzeug #388
             resp_status = repr(getattr(e, 'code', e.__class__.__name__))
